@@ -94,3 +94,37 @@ func PacketStruct(p *ref.TSPacket, parsed bool) *astits.Packet {
 	}
 	return o
 }
+
+// StrayAF fills the value fields of a to-be-written adaptation field whose flags are off (a struct the caller reuses and
+// only toggles the flags of): the flags, not the values, say what the field carries.
+func StrayAF(a *astits.PacketAdaptationField) {
+	if a == nil || a.IsOneByteStuffing {
+		return
+	}
+	if !a.HasPCR {
+		a.PCR = &astits.ClockReference{Base: 0x155555555, Extension: 0x155}
+	}
+	if !a.HasOPCR {
+		a.OPCR = &astits.ClockReference{Base: 0x0aaaaaaaa, Extension: 0x0aa}
+	}
+	if !a.HasSplicingCountdown {
+		a.SpliceCountdown = 77
+	}
+	if !a.HasTransportPrivateData {
+		a.TransportPrivateData = []byte{1, 2, 3, 4, 5}
+		a.TransportPrivateDataLength = 5
+	}
+	if !a.HasAdaptationExtensionField {
+		a.AdaptationExtensionField = &astits.PacketAdaptationExtensionField{HasLegalTimeWindow: true, LegalTimeWindowOffset: 9, HasPiecewiseRate: true, PiecewiseRate: 8}
+	} else if x := a.AdaptationExtensionField; x != nil {
+		if !x.HasLegalTimeWindow {
+			x.LegalTimeWindowIsValid, x.LegalTimeWindowOffset = true, 0x1234
+		}
+		if !x.HasPiecewiseRate {
+			x.PiecewiseRate = 0x123456
+		}
+		if !x.HasSeamlessSplice {
+			x.SpliceType, x.DTSNextAccessUnit = 5, &astits.ClockReference{Base: 0x123456789}
+		}
+	}
+}
